@@ -283,7 +283,16 @@ def run(ctx):
                     if len(og) == 1 and og[0] is ctor[0]:
                         stores.append(n)
         ok = len(stores) == 1
-        bmo = [a for a in ctor[0].args if (value_origins(cgb, cgb.containing(ctor[0])[0].id, a, params=gbc.params) or [(None, a)]) and any(
+        # the constructor's arguments, a `*args` of a tuple built in place included
+        cargs = []
+        for a in ctor[0].args:
+            if isinstance(a, ast.Starred):
+                ogs_ = value_origins(cgb, cgb.containing(ctor[0])[0].id, a.value, params=gbc.params) if isinstance(a.value, ast.Name) else [(None, a.value)]
+                if ogs_ and len(ogs_) == 1 and isinstance(ogs_[0][1], (ast.Tuple, ast.List)):
+                    cargs += list(ogs_[0][1].elts)
+                    continue
+            cargs.append(a)
+        bmo = [a for a in cargs if (value_origins(cgb, cgb.containing(ctor[0])[0].id, a, params=gbc.params) or [(None, a)]) and any(
             norm(e) == "self._brokers[%s]" % gbc.params[1] for n_, e in (value_origins(cgb, cgb.containing(ctor[0])[0].id, a, params=gbc.params) or []))]
         ok = ok and bool(bmo)
     r.check(ok, "%s#construction" % gbc.qname, "broker clients are constructed elsewhere or with another broker's address", where(gbc, gbc.node), facts=sites)
